@@ -8,9 +8,9 @@ for name in "$@"; do
   wt=/tmp/evalwt-$name
   rm -rf $wt; git -C /repo worktree prune; git -C /repo worktree add -q --detach $wt HEAD || continue
   if ! git -C $wt apply /verif/seeded/$name/patch.diff; then echo "PATCH-DOES-NOT-APPLY $name"; else
-    VERIF_SUITE_TIMEOUT=${VERIF_SUITE_TIMEOUT:-240} /verif/tools/evalmut.sh $id $wt 2>&1 | grep -E "^(OK|FAIL|VIOLATION)|broken" | cut -c1-230 | head -8
+    EVAL_COPY=/tmp/verif-eval-$name VERIF_SUITE_TIMEOUT=${VERIF_SUITE_TIMEOUT:-240} /verif/tools/evalmut.sh $id $wt 2>&1 | grep -E "^(OK|FAIL|VIOLATION)|broken" | cut -c1-230 | head -8
   fi
-  git -C /repo worktree remove --force $wt; rm -rf /tmp/verif-eval-$id
+  git -C /repo worktree remove --force $wt; rm -rf /tmp/verif-eval-$name
 done
 git -C /repo worktree prune
 echo ALLDONE
